@@ -68,7 +68,7 @@ func verifH_C11_payload_rt() {
 	if verifThorough() {
 		K, L = 3, 3
 	}
-	k := verifChoose(1, K)
+	k := verifChoose(0, K) // zero packets is what a timed-out long poll answers with
 	pkts := make([]*Packet, k)
 	for i := range pkts {
 		n := verifChoose(0, L)
@@ -90,6 +90,12 @@ func verifH_C11_payload_rt() {
 	enc := buf.Bytes()
 	verifAssert(len(enc) == EncodedPayloadsLen(pkts...), "EncodedPayloadsLen equals bytes written")
 	got, err := DecodePayloads(bytes.NewReader(enc))
+	if k == 0 {
+		// Engine.IO v4 has no empty payload: nothing is written, the advertised length is 0, and the decoder refuses it
+		verifAssert(len(enc) == 0 && err != nil, "zero packets encode to nothing, which is not a payload")
+		verifReach("empty")
+		return
+	}
 	verifAssert(err == nil, "decoding an encoded payload does not fail")
 	if err != nil {
 		return
